@@ -273,6 +273,21 @@ def run_closed(c, o):
         sf, sr = P * h["hfront"] / Iy, P * h["hrear"] / Iy
         o.close("closed/wingbox_bending_front_rear", vm, np.stack([sr / tssf, sf, sf, sr / tssf], axis=1), rtol=1e-8,
                 scale=max(sf.max(), sr.max()), what="tip moment about z")
+        # both bending moments at once: the upper-rear corner carries (upper skin stress) + (rear spar stress) with their physical signs -
+        # bending that moves the tip up compresses the upper skin, bending that moves it aft compresses the rear spar - and the lower-front
+        # corner the opposite pair; the sense of each bending is read off the computed tip displacement
+        P2 = P * float(rng.uniform(0.3, 0.7))
+        for sx, sz in ((1.0, 1.0), (1.0, -1.0), (-1.0, 1.0)):
+            vm = solve([0, 0, 0, sx * P, 0, sz * P2])
+            d = zoo.get(prob, "disp")
+            up, aft = d[0, 2] > 0, d[0, 0] > 0
+            st, sb = P * h["htop"] / Iz, P * h["hbottom"] / Iz
+            sf, sr = P2 * h["hfront"] / Iy, P2 * h["hrear"] / Iy
+            sgn = 1.0 if up == aft else -1.0
+            rev = np.stack([np.abs(st - sgn * sr) / tssf, np.abs(sb - sgn * sf)], axis=1)  # the spar term with the opposite sign
+            o.close("closed/wingbox_biaxial_corners", vm[:, :2], np.stack([np.abs(st + sgn * sr) / tssf, np.abs(sb + sgn * sf)], axis=1), rtol=1e-8,
+                    scale=max(st.max(), sb.max()), what="tip moments about x and z together (tip moves %s and %s)" % ("up" if up else "down", "aft" if aft else "forward"),
+                    spar_sign_reversed=bool(np.all(np.abs(vm[:, :2] - rev) <= 1e-8 * max(st.max(), sb.max()))))
         vm = solve([0, 0, 0, 0, P, 0])
         tau = P / (2 * h["spar_thickness"] * h["A_enc"])
         s3 = np.sqrt(3.0) * tau
